@@ -11,8 +11,9 @@
   oracle      numpy/scipy: ||U_circuit * phase - expm(-i t H)|| for arbitrary real coefficients / times:
               ~1e-9 for commuting operators, <= first / second order commutator bound otherwise (these two
               bounds are checked NUMERICALLY ONLY: partial), decrease with the number of steps for orders 4, 6;
-              fermionic inputs through each encoding; per-term time dictionaries; the known defect
-              (identity term, several controls including qubit 0) is re-found by a concrete replay.
+              fermionic inputs through each encoding; per-term time dictionaries; the formerly recorded defect
+              (identity term, several controls including qubit 0 -> ValueError; repaired by fix ae252bf) is replayed on every run
+              and keeps its own signature should it reappear.
 """
 import cmath
 import itertools
@@ -284,19 +285,6 @@ def run(ck):
     # 2. proofs (a broken step is reported, the search goes on)
     try:
         res = ck.prove(timeout=1500)
-        if not res.ok and str(res.failed).startswith("coqchk("):
-            # coqchk -o lists the axioms DECLARED in the whole loaded context.  Coq's Reals library (loaded by the shared
-            # Num/CReal.v) declares Classical_Prop.classic, so it appears there for every file stated over CRealS although
-            # no C06 theorem depends on it (Print Assumptions of each theorem, checked above, is the per-theorem answer).
-            info = (ck.notes.get("coqchk") or [{}])[-1]
-            std = {"functional_extensionality_dep", "sig_not_dec", "sig_forall_dec"}
-            extra = [a for a in info.get("axioms", []) if a.split(".")[-1] not in std]
-            if info.get("exit") == 0 and not info.get("flags") and extra == ["Coq.Logic.Classical_Prop.classic"] \
-                    and res.theorems and all(t["status"] == "proved" for t in res.theorems):
-                res.ok, res.failed = True, None
-                ck.notes["coqchk_note"] = ("coqchk accepted C06.vo and its dependencies (exit 0, no type-in-type / unsafe fixpoint / assumed positivity); its "
-                                           "context summary lists Classical_Prop.classic, which Coq's Reals library declares; no C06 theorem uses it "
-                                           "(Print Assumptions of all %d theorems)" % len(res.theorems))
         if not res.ok:
             ck.proof_violation(res)
     except Exception as e:
@@ -347,7 +335,7 @@ def identity_multictrl_case(control, coef=0.3, zcoef=0.5):
 
 def known_defect(ck):
     ck.stream("identity-term-controls", "identity term + Z2 under control lists [1,3], [3,4], [0,1], [1,0], [0,3,4], [0]: the circuit must "
-              "exist and equal the controlled exp(-iH); witness of C06_identity_term_multictrl_refuted")
+              "exist and equal the controlled exp(-iH); includes the witness of C06_identity_term_multictrl_asis_refuted (repaired by fix ae252bf)")
     for control in ([1, 3], [3, 4], [0, 1], [1, 0], [0, 3, 4], [0], 0, [1]):
         e, d = identity_multictrl_case(control)
         ck.case("identity-term-controls", json.dumps(control), nontrivial=True, sample={"control": control, "raised": repr(e), "deviation": d},
@@ -356,7 +344,7 @@ def known_defect(ck):
         if e is not None:
             sig = KNOWN_SIG if (multi and 0 in control and isinstance(e, ValueError)) else "C06/identity-term/raises-%s" % type(e).__name__
             ck.violation(sig, "trotterize(0.3*I + 0.5*Z2, control=%s) raises %s: %s — the controlled time evolution is well defined "
-                         "(the identity term's CPHASE/CRZ pair hard-codes target=0)" % (control, type(e).__name__, e),
+                         "(regression of fix ae252bf: identity-term gate target among the controls)" % (control, type(e).__name__, e),
                          {"kind": "identity_multictrl", "control": control})
         elif d > TOL:
             ck.violation("C06/identity-term/wrong-operator", "trotterize(0.3*I + 0.5*Z2, control=%s) deviates from the controlled exp(-iH) by %.3g" % (control, d),
@@ -414,7 +402,7 @@ def stream_grid(ck):
     ck.stream("evolution-grid", "systematic grid {QubitOperator, FermionOperator (jw, bk, scbk, jkmn)} x {scalar time, per-term time dictionary with distinct times} x "
               "n_trotter_steps {1,2,3} x order {1,2} x control lists of length 0,1,2,3 (not containing / containing qubit 0), commuting operators WITH an identity "
               "term, real coefficients and times: ||circuit*phase - ctrl(expm(-i sum_k t_k c_k H_k))||_2 <= 1e-9; a raising call is a violation carrying the case "
-              "(several controls including qubit 0 + identity term: the recorded finding)")
+              "(several controls including qubit 0 + identity term was the recorded finding, repaired by fix ae252bf)")
     q_controls = [None, 4, [4], [4, 5], [5, 4, 6], [0], [0, 4], [4, 0], [0, 4, 5]]
     f_controls = [None, [4], [5, 4], [4, 5, 6]]
     mappings = ["jw", "bk", "scbk", "jkmn"]
